@@ -32,6 +32,8 @@ from nflows.distributions import normal as DN
 from nflows.distributions import discrete as DD
 from nflows.flows import base as FB
 from nflows.transforms import standard as ST
+from nflows.distributions import mixture as DM
+from nflows.nn.nde import made as made_n
 
 PROP = "C18"
 
@@ -56,27 +58,60 @@ def make(kind):
         if kind == "Flow+embedding":
             emb = stubs.UFNet("emb", lambda in_shape: (3,))
         return FB.Flow(t, DN.StandardNormal([2]), embedding_net=emb), False, 3, (2,)
+    if kind in ("MADEMoG", "MADEMoG+context"):
+        cf = 3 if kind.endswith("context") else None
+        torch.manual_seed(0)
+        d = DM.MADEMoG(features=2, hidden_features=4, context_features=cf, num_blocks=1, num_mixture_components=1)
+        # the autoregressive network is a row-wise uninterpreted function of (inputs, context) here (its structure is C06's subject)
+        d._made.forward = stubs.UFNet("made", lambda in_shape: (2 * 1 * 3,))
+        return d, cf is not None, 3, (2,)
     raise ValueError(kind)
+
+
+class _OneComponent:
+    """torch.distributions.Categorical over a single mixture component: every draw is component 0."""
+
+    def __init__(self, logits=None, probs=None):
+        self.n = (logits if logits is not None else probs).shape[0]
+
+    def sample(self, shape=()):
+        return torch.zeros(tuple(shape) + (self.n,), dtype=torch.long)
+
+
+class _FakeDistributions:
+    Categorical = _OneComponent
+
+
+def mog_patches():
+    real_zeros = torch.zeros
+
+    def zeros(*size, **kw):
+        if len(size) == 2 and all(isinstance(v, int) for v in size) and "dtype" not in kw:
+            return Sym(_obj(np.zeros(size)))
+        return real_zeros(*size, **kw)
+
+    return stubs.patched((torch, "zeros", zeros), (made_n, "distributions", _FakeDistributions))
 
 
 def vars_of(arr, prefix):
     return {v.args[0] for s in np.asarray(arr, dtype=object).reshape(-1) for v in tm.free_vars(s.t) if v.args[0].startswith(prefix)}
 
 
-def structure_ok(samples, rows, n, event, ctx_used):
-    """sample[i, j] mentions only context row i, exactly one noise draw, all draws distinct."""
+def structure_ok(samples, rows, n, event, ctx_used, max_draws=1):
+    """sample[i, j] mentions only context row i, exactly one noise draw (one per feature for the autoregressive
+    sampler), all draws distinct."""
     seen = set()
     for i in range(rows):
         for j in range(n):
             elem = samples.a[i, j] if rows is not None and samples.a.ndim == len(event) + 2 else samples.a[j]
             noise = vars_of(elem, "randn") | vars_of(elem, "rand")
             draws = {v.rsplit("_", len(event))[0] if False else _draw_id(v, len(event)) for v in noise}
-            if len(draws) != 1:
+            if not (1 <= len(draws) <= max_draws):
                 return "sample[%d,%d] uses %d noise draws" % (i, j, len(draws))
-            d = next(iter(draws))
-            if d in seen:
-                return "noise draw %s used twice" % (d,)
-            seen.add(d)
+            for d in draws:
+                if d in seen:
+                    return "noise draw %s used twice" % (d,)
+                seen.add(d)
             if ctx_used:
                 cv = vars_of(elem, "ctx_")
                 rows_used = {int(v.split("_")[1]) for v in cv}
@@ -116,12 +151,15 @@ def job(cfg):
             jr["inconclusive"].append({"query": kind + "/" + relation, "why": "not reproduced on real tensors", "error": err, "replay": rep})
 
     sc.BOOL_TO_NUM[0] = "ite"
-    with stubs.torch_patches():
+    import contextlib
+
+    with stubs.torch_patches(), (mog_patches() if kind.startswith("MADEMoG") else contextlib.nullcontext()):
         R.begin_run()
         dist, needs_ctx, cw, event = make(kind)
         dist.eval()
         is_flow = kind.startswith("Flow")
-        for rows in ([None] if needs_ctx is False and not is_flow else []) + list(range(1, maxrows + 1)) + ([None] if is_flow and not needs_ctx and kind != "Flow+embedding" else []):
+        only_unconditional = kind == "MADEMoG"  # built without context features: a context is a caller error
+        for rows in ([None] if needs_ctx is False and not is_flow else []) + ([] if only_unconditional else list(range(1, maxrows + 1))) + ([None] if is_flow and not needs_ctx and kind != "Flow+embedding" else []):
             if rows is None and needs_ctx:
                 continue
             ctx = stubs.named_tensor("ctx", (rows, cw)) if rows is not None else None
@@ -131,12 +169,14 @@ def job(cfg):
                 try:
                     s0 = dist.sample(n, context=ctx)
                 except Exception as e:  # noqa
-                    note(tag + "/sample", "raised %s: %s" % (type(e).__name__, e))
+                    err = "raised %s: %s" % (type(e).__name__, e)
+                    if not note(tag + "/sample", err) and not any(v["relation"] == "sample-raises" for v in jr["violations"]):
+                        fail("sample-raises", {"context": rows is not None}, {"kind": kind, "rows": rows, "n": n, "batch_size": None, "what": "shape"}, err)
                     continue
                 want = ((rows, n) if rows is not None else (n,)) + tuple(event)
                 ok = note(tag + "/sample-shape", None if tuple(s0.shape) == want else "shape %s, documented %s" % (tuple(s0.shape), want))
                 if ok and kind != "ConditionalIndependentBernoulli":
-                    err = structure_ok(s0 if rows is not None else Sym(s0.a[None]), rows or 1, n, event, ctx_matters)
+                    err = structure_ok(s0 if rows is not None else Sym(s0.a[None]), rows or 1, n, event, ctx_matters, max_draws=2 if kind.startswith("MADEMoG") else 1)
                     if not note(tag + "/sample-pairing", err) and not any(v["relation"] == "sample-pairing" for v in jr["violations"]):
                         fail("sample-pairing", {"context": rows is not None}, {"kind": kind, "rows": rows, "n": n, "batch_size": None, "what": "pairing"}, err)
                 for b in range(1, n + 2):
@@ -147,7 +187,7 @@ def job(cfg):
                         continue
                     err = None if tuple(sb.shape) == want else "batched shape %s, documented %s" % (tuple(sb.shape), want)
                     if err is None and kind != "ConditionalIndependentBernoulli":
-                        err = structure_ok(sb if rows is not None else Sym(sb.a[None]), rows or 1, n, event, ctx_matters)
+                        err = structure_ok(sb if rows is not None else Sym(sb.a[None]), rows or 1, n, event, ctx_matters, max_draws=2 if kind.startswith("MADEMoG") else 1)
                     if not note(tag + "/batch_size=%d" % b, err):
                         if not any(v["relation"] == "batched-sample" for v in jr["violations"]):
                             fail("batched-sample", {"context": rows is not None}, {"kind": kind, "rows": rows, "n": n, "batch_size": b, "what": "batched"}, err)
@@ -161,7 +201,7 @@ def job(cfg):
             # log_prob: one value per row, ValueError iff rows differ
             for N in range(1, maxrows + 1):
                 x = stubs.named_tensor("inp", (N,) + tuple(event))
-                for crows in ([None] if (not needs_ctx and kind != "Flow+embedding") else []) + list(range(1, maxrows + 1)):
+                for crows in ([None] if (not needs_ctx and kind != "Flow+embedding") else []) + ([] if only_unconditional else list(range(1, maxrows + 1))):
                     c = stubs.named_tensor("ctx", (crows, cw)) if crows is not None else None
                     tag = "%s/log_prob/N=%d/context_rows=%s" % (kind, N, crows)
                     try:
@@ -193,6 +233,22 @@ def job(cfg):
                     note(tag, None)
                 except Exception as e:  # noqa
                     note(tag, "raised %s instead of TypeError" % type(e).__name__)
+            # the same sample count through sample_and_log_prob
+            tag = "%s/sample_and_log_prob/TypeError-for-num_samples=%r" % (kind, bad)
+            needs_c = needs_ctx or kind == "Flow+embedding"  # (an embedding network cannot be applied to None)
+            ctx = stubs.named_tensor("ctx", (1, cw)) if needs_c else None
+            err = None
+            try:
+                dist.sample_and_log_prob(bad, context=ctx)
+                err = "accepted"
+            except TypeError:
+                pass
+            except NotImplementedError:
+                pass  # a distribution without sampling
+            except Exception as e:  # noqa
+                err = "raised %s instead of TypeError" % type(e).__name__
+            if not note(tag, err) and not any(v["relation"] == "sample_and_log_prob-count-validation" for v in jr["violations"]):
+                fail("sample_and_log_prob-count-validation", {"context": needs_c}, {"kind": kind, "rows": 1 if needs_c else None, "n": bad if not isinstance(bad, str) else None, "batch_size": None, "what": "count-validation", "bad": repr(bad)}, err)
     sc.BOOL_TO_NUM[0] = "fork"
     jr["paths"] = n_checks
     jr["samples"].append({"distribution": kind, "example": "sample(3, context[2], batch_size=2) -> shape [2,3,2]; sample[i,j] mentions ctx_i_* and one randn draw"})
@@ -206,7 +262,7 @@ def job(cfg):
     return jr
 
 
-def replay(kind, rows, n, batch_size, what):
+def replay(kind, rows, n, batch_size, what, bad=None):
     res = {"reproduced": False}
     try:
         torch.manual_seed(0)
@@ -219,6 +275,20 @@ def replay(kind, rows, n, batch_size, what):
         else:
             dist, _, cw, event = make(kind)
         ctx = torch.randn(rows, cw) if rows is not None else None
+        if what == "count-validation":
+            import ast
+
+            count = ast.literal_eval(bad)
+            try:
+                dist.sample_and_log_prob(count, context=ctx)
+                res["outcome"] = "accepted"
+                res["reproduced"] = True
+            except TypeError:
+                res["outcome"] = "TypeError"
+            except Exception as e:  # noqa
+                res["outcome"] = "%s: %s" % (type(e).__name__, e)
+                res["reproduced"] = True
+            return res
         if what == "pairing" and rows is not None and cw == 4:
             # conditional Gaussian rows that are narrow and far apart: block i must lie near its own mean
             rows_ = max(rows, 3)
@@ -243,7 +313,7 @@ def replay(kind, rows, n, batch_size, what):
     return res
 
 
-KINDS = ("StandardNormal", "StandardNormal[2,1]", "ConditionalDiagonalNormal", "ConditionalIndependentBernoulli", "Flow", "Flow+embedding", "Flow+conditional-base")
+KINDS = ("StandardNormal", "StandardNormal[2,1]", "ConditionalDiagonalNormal", "ConditionalIndependentBernoulli", "Flow", "Flow+embedding", "Flow+conditional-base", "MADEMoG", "MADEMoG+context")
 
 
 def configs(tier):
